@@ -2,6 +2,17 @@
 
 // C21 correspondence harness: three real EtcdStores (own clients, interposed KV) and the real
 // operator publish on one embedded etcd; same line protocol as lean/Driver/C21.lean.
+//
+//	call <b> create|grow|delete <t> [<n>] [fail=<spec>] [with <call> ...]
+//	    the injected calls (complete calls of other brokers, `op <crd>`, `late <b>`) run between the call's
+//	    read + local mutation and its first etcd write; fail=get<k> | del0:pre|post | txn<k>:pre|post makes
+//	    the k-th Get of the snapshot key / the offset-cleanup Delete / the k-th snapshot txn of THIS call
+//	    return an etcd error (pre: never sent, post: applied, answer lost)
+//	publish <crd> [with <call> ...]
+//	    the real operator.PublishMetadataSnapshot, whose etcd traffic goes through a gRPC KV relay in front
+//	    of the embedded etcd; the injected broker calls run after the operator's Get has been answered and
+//	    right before its first Txn is forwarded
+//	watch <b> | late <b> | reset | live | stress <seed> <n>
 package main
 
 import (
